@@ -94,6 +94,9 @@ inductive Filter where
     is not an attrs instance, list, tuple, set or dict (identity on everything else) -/
 inductive SerMode where
   | off | wrap | wrapLeaf | wrapAtoms
+  /-- the substituting serializer described by `Case.subst`: returns a given object for the inputs it targets
+      and its argument for all others -/
+  | subst
   deriving DecidableEq, Repr, FromJson, ToJson, Inhabited
 
 inductive TF where
@@ -103,6 +106,21 @@ inductive TF where
 inductive Api where
   | asdict | astuple
   deriving DecidableEq, Repr, FromJson, ToJson, Inhabited
+
+/-- which inputs the substituting serializer replaces -/
+inductive Target where
+  | atomIs (a : Atom)        -- the value is this scalar / this object
+  | scalars                  -- every int / str / None
+  | field (name : String)    -- every field value of a field of that name (whatever the value)
+  | all                      -- everything it is called with
+  deriving DecidableEq, Repr, FromJson, ToJson, Inhabited
+
+/-- a serializer whose *results* are hostile: for the inputs in `target` it returns the object `repl`
+    (None, 0, "", NOTHING, a list, a dict, an attrs instance, …), for all others its argument itself -/
+structure Subst where
+  target : Target
+  repl : PVal
+  deriving Repr, FromJson, ToJson, Inhabited
 
 /-- a callback of the call -/
 inductive Site where
@@ -128,6 +146,7 @@ structure Case where
   tupleFactory : TF
   ser : SerMode
   fault : Option Fault
+  subst : Option Subst
   deriving Repr, FromJson, ToJson, Inhabited
 
 inductive Res where
@@ -322,6 +341,7 @@ def serApplies (m : SerMode) (a : Atom) : Bool :=
   | .wrap => true
   | .wrapLeaf => a.isScalar
   | .wrapAtoms => true
+  | .subst => false
 
 /-- `value_serializer(inst, a, v)` on a leaf field value -/
 def serFieldAtom (m : SerMode) (c : Nat) (f : FI) (a : Atom) : Out :=
@@ -390,6 +410,7 @@ def serFlat (m : SerMode) (c : Nat) (f : FI) (v : PVal) : Out :=
   | .wrapLeaf, v => embed v
   | .wrapAtoms, .atom a => .ser (some c) (some f.name) (.atom a)
   | .wrapAtoms, v => embed v
+  | .subst, v => embed v
 
 /-- `asdict`'s loop with `recurse=False` -/
 def flatD (o : Opts) (c : Nat) : List (FI × PVal) → List (String × Out)
@@ -456,10 +477,86 @@ def Case.opts (c : Case) : Opts :=
     tf := if c.ng then .tuple else c.tupleFactory,
     ser := match c.api with | .asdict => c.ser | .astuple => .off }
 
+/-! ## `asdict` with the substituting serializer (`ser = subst`)
+
+    `v = value_serializer(inst, a, v)` comes first and the branches look at what it *returned*: at field level
+    the replacement is converted like any field value (its own parts see the serializer again: `wf` makes sure
+    it replaces nothing there, so that is the conversion without serializer); below field level the replacement is
+    stored as it is. -/
+
+def isScalarV' : PVal → Bool
+  | .atom a => a.isScalar
+  | _ => false
+
+/-- is the serializer's argument one it replaces?  `fld` = name of the attribute it is called with (None below
+    field level) -/
+def Target.hits (t : Target) (fld : Option String) (v : PVal) : Bool :=
+  match t with
+  | .atomIs a => (match v with
+    | .atom b => a == b
+    | _ => false)
+  | .scalars => isScalarV' v
+  | .field n => fld == some n
+  | .all => true
+
+def Opts.noSer (o : Opts) : Opts := { o with ser := .off }
+
+mutual
+def anythingS (o : Opts) (s : Subst) (isKey : Bool) : PVal → Except String Out
+  | .atom a => if s.target.hits none (.atom a) then .ok (embed s.repl) else .ok (.atom a)
+  | .inst c _ fs => (fieldsS o s c fs).map (Out.record o.df)
+  | .coll k xs =>
+    (itemsS o s isKey xs).bind (codeColl (if o.retain then k else if isKey then .tuple else .list))
+  | .dict _ ps => (pairsS o s ps).bind (pyDict o.df)
+def fieldS (o : Opts) (s : Subst) (c : Nat) (f : FI) : PVal → Except String Out
+  | .atom a =>
+    if s.target.hits (some f.name) (.atom a) then fieldD o.noSer c f s.repl else .ok (.atom a)
+  | .inst c' h fs =>
+    if s.target.hits (some f.name) (.inst c' h fs) then fieldD o.noSer c f s.repl
+    else (fieldsS o s c' fs).map (Out.record o.df)
+  | .coll k xs =>
+    if s.target.hits (some f.name) (.coll k xs) then fieldD o.noSer c f s.repl
+    else (itemsS o s false xs).bind (codeColl (if o.retain then k else .list))
+  | .dict k ps =>
+    if s.target.hits (some f.name) (.dict k ps) then fieldD o.noSer c f s.repl
+    else (pairsS o s ps).bind (pyDict o.df)
+def fieldsS (o : Opts) (s : Subst) (c : Nat) : List (FI × PVal) → Except String (List (String × Out))
+  | [] => .ok []
+  | (f, v) :: r =>
+    if passes o.filter f v then consE ((fieldS o s c f v).map (fun x => (f.name, x))) (fieldsS o s c r)
+    else fieldsS o s c r
+def itemsS (o : Opts) (s : Subst) (isKey : Bool) : List PVal → Except String (List Out)
+  | [] => .ok []
+  | v :: r => consE (anythingS o s isKey v) (itemsS o s isKey r)
+def pairsS (o : Opts) (s : Subst) : List (PVal × PVal) → Except String (List (Out × Out))
+  | [] => .ok []
+  | (k, v) :: r => consE (pairE (anythingS o s true k) (anythingS o s false v)) (pairsS o s r)
+end
+
+/-- recurse=False: the serializer's result is stored as it is -/
+def flatS (o : Opts) (s : Subst) : List (FI × PVal) → List (String × Out)
+  | [] => []
+  | (f, v) :: r =>
+    if passes o.filter f v then
+      (f.name, if s.target.hits (some f.name) v then embed s.repl else embed v) :: flatS o s r
+    else flatS o s r
+
+def asdictTopS (o : Opts) (s : Subst) (recurse : Bool) : PVal → Except String Out
+  | .inst c _ fs =>
+    if recurse then (fieldsS o s c fs).map (Out.record o.df) else .ok (.record o.df (flatS o s fs))
+  | _ => .error "notAnAttrsClass"
+
+/-- the substituting serializer in force (asdict only) -/
+def Case.activeSubst (c : Case) : Option Subst :=
+  if c.api == .asdict && c.ser == .subst then c.subst else none
+
 /-- the call without fault injection -/
 def runPlain (c : Case) : Except String Out :=
   match c.api with
-  | .asdict => asdictTop c.opts c.recurse c.value
+  | .asdict =>
+    (match c.activeSubst with
+     | some s => asdictTopS c.opts s c.recurse c.value
+     | none => asdictTop c.opts c.recurse c.value)
   | .astuple => astupleTop c.opts c.recurse c.value
 
 /-! ## How often each callback is called by a call that completes -/
